@@ -149,7 +149,8 @@ def absent_keywords(db, rnd, scheme, cfg):
 
 
 # ----------------------------------------------------------------------------- one case
-def run_case(scheme, cfg, profile, seed_, present=True, absent=False, want_shape=True, max_search=6, shared_ids=False, shaped=True):
+def run_case(scheme, cfg, profile, seed_, present=True, absent=False, want_shape=True, max_search=6, shared_ids=False, shaped=True,
+             two_indexes=True):
     rnd = random.Random(seed_)
     idsz = sc.id_size_of(cfg)
     kwlen = None
@@ -191,12 +192,33 @@ def run_case(scheme, cfg, profile, seed_, present=True, absent=False, want_shape
         todo += [(i + 1, "present", kws[i]) for i in idx]
     if absent:
         todo += [(0, cls, k) for cls, k in absent_keywords(db, rnd, scheme, cfg)]
-    for kwi, cls, kw in todo:
-        s = {"kw": kwi, "cls": cls, "out": "raised", "pos": [], "err": ""}
+    runs = [(edb, db, "")]
+    if present and two_indexes and seed_ % 4 == 0:
+        # the same scheme object and key serve a SECOND index (same keywords, other identifiers); it is searched too and
+        # the first one again afterwards: an answer must come from the index it was asked of
+        db2 = {}
+        for kw in db:
+            ids, seen = [], set(db[kw])
+            while len(ids) < len(db[kw]):
+                x = sc.rand_id(idsz, rnd, shaped)
+                if x not in seen:
+                    seen.add(x)
+                    ids.append(x)
+            db2[kw] = ids
+        try:
+            edb2 = sch.EDBSetup(key, db2)
+            runs = [(edb, db, ""), (edb2, db2, ":second-index"), (edb, db, ":first-index-again")]
+        except Exception as ex:
+            rec["setup"] = "raised"
+            rec["err"] = "second setup: " + type(ex).__name__ + ": " + str(ex)[:100]
+            return rec
+    for edb_, db_, tag in runs:
+      for kwi, cls, kw in todo:
+        s = {"kw": kwi, "cls": cls + tag, "out": "raised", "pos": [], "err": ""}
         try:
             tok = sch.TokenGen(key, kw)
-            res = sch.Search(edb, tok).get_result_list()
-            exp = db[kw] if kwi else []
+            res = sch.Search(edb_, tok).get_result_list()
+            exp = db_[kw] if kwi else []
             got = list(res) if not isinstance(res, (set, frozenset)) else sorted(res, key=lambda x: exp.index(x) if x in exp else -1)
             s["out"] = "result"
             s["pos"] = sc.result_positions(got, exp)
